@@ -70,6 +70,9 @@ def run (op : String) (args : List String) : Option String :=
   | "ck.w.icmp4", [m] => do
       let m ← argHex m
       if m.length < 8 then none else pure s!"ok({wireIcmp4 m})"
+  | "ck.w.icmp4", [m, extra] => do
+      let m ← argHex m; let extra ← argHex extra
+      if m.length < 8 then none else pure s!"ok({wireIcmp4 (m ++ extra)})"
   | "ck.w.icmp6", [src, dst, m] => do
       let src ← argHex src; let dst ← argHex dst; let m ← argHex m
       if src.length ≠ 16 ∨ dst.length ≠ 16 ∨ m.length < 8 then none
